@@ -814,12 +814,23 @@ def check_arrays_continuum(ctx: Ctx, rule: str):
     f = ctx.fn("AbstractDissimilarity._build_arrays_continuum", rule)
     cont = f.params[1]
     outs = [L for L in walk_no_nested(f.node) if isinstance(L, ast.For) and f"{cont}._annotations" in norm(L.iter)]
+    inner_ = {id(x) for L in outs for b in L.body + L.orelse for x in ast.walk(b)}
+    outs = [L for L in outs if id(L) not in inner_]
     if len(outs) != 1:
         ctx.undecided(rule, f, None, "loop over continuum._annotations not found", key="arrays-order")
         return
     O = outs[0]
     it = O.iter
     src = it.args[0] if isinstance(it, ast.Call) and dotted(it.func) == "enumerate" and it.args else it
+    # the annotators taken in another order than the mapping's own (a sort key, a reversal): array i is no longer the i-th annotator of
+    # `_annotations`, which is what the sizes, the matrices and the decoder's peekitem(i) / annotators[i] all index by
+    if isinstance(src, ast.Call) and dotted(src.func) in ("sorted", "reversed") and src.args and \
+            norm(src.args[0]) in (f"{cont}._annotations", f"{cont}._annotations.keys()", f"{cont}._annotations.items()", f"{cont}._annotations.values()", f"{cont}.annotators") and \
+            (dotted(src.func) == "reversed" or any(k.arg in ("key", "reverse") and not (isinstance(k.value, ast.Constant) and k.value.value in (None, False)) for k in src.keywords)):
+        ctx.bad(rule, f, O, f"the unit arrays are built over `{norm(src)}`: array i is not that of the i-th annotator of continuum._annotations, which is what the decoder "
+                f"(peekitem(i) / annotators[i]) and the per-annotator sizes index by - with annotators this order ranks differently, units are attributed to the wrong annotator",
+                key="arrays-order")
+        return
     ok_src = norm(src) in (f"{cont}._annotations.items()", f"{cont}._annotations.values()")
     units = None
     for x in ast.walk(O.target):
